@@ -459,6 +459,17 @@ Example c09_demo_concurrent_summaries :
   /\ map ck_to (ckpts (log race_end)) = [2; 2].
 Proof. exact race_is_interleaving. Qed.
 
+(* observed, not a violation (c09_summary_base_is_latest_below_cut, else-branch of base_spec): beyond the scan window
+   (3 checkpoint frames, window 2 here; 10 000 in the code) the later cuts of one job take their base from the job's
+   snapshot: the summary of cut 6 (to_seq 9) is built on the summary of cut 2 out of messages 3..6 instead of on the
+   job's own summary of cut 4 out of messages 5, 6 — either way it covers the thread up to its cut exactly once *)
+Example c09_beyond_window_later_cuts_use_snapshot_base_observed :
+  skipn 3 (summ_view (fst (auto small_window (Some 2) (Some 2) None (fst (run_ops small_window st0 quirk_ops [])))))
+  = [(4, 7, Some 3, true, [(0, 3); (1, 4)]); (5, 9, Some 3, true, [(0, 3); (1, 4); (0, 5); (1, 6)])]
+  /\ skipn 3 (summ_view (fst (auto real_consts (Some 2) (Some 2) None (fst (run_ops real_consts st0 quirk_ops [])))))
+     = [(4, 7, Some 3, true, [(0, 3); (1, 4)]); (5, 9, Some 4, true, [(0, 5); (1, 6)])].
+Proof. exact beyond_window_observed. Qed.
+
 (* What the summary records of its delta and the correspondence reads back from the artifact: `- delta_actors:` is the
    head (6 entries) of the per-actor message counts of the slice sorted most-frequent-first, ties by actor — every entry
    (a, c) says that exactly c > 0 messages of the slice were written by a; `## Recent Delta Highlights` is the slice's
